@@ -2,7 +2,7 @@
     This file holds only the exported statements (each closed by [exact]). *)
 From Coq Require Import List Bool Arith ZArith.
 Import ListNotations.
-Require Import Nib.C20.SMapDef Nib.C20.Model Nib.C20.Eqdec Nib.C20.Spec Nib.C20.Shape Nib.C20.WfB Nib.C20.Check Nib.C20.Proofs Nib.C20.ProofsDg.
+Require Import Nib.C20.SMapDef Nib.C20.Model Nib.C20.Eqdec Nib.C20.Spec Nib.C20.Shape Nib.C20.WfB Nib.C20.Check Nib.C20.Proofs Nib.C20.ProofsDg Nib.C20.ProofsGen.
 
 (** COMPOSED THEOREM over the product of the seven modules, for ANY tree facts [c], any height/time:
     a well-formed application state exports; the export initialises a fresh chain; the second export is
@@ -10,7 +10,7 @@ Require Import Nib.C20.SMapDef Nib.C20.Model Nib.C20.Eqdec Nib.C20.Spec Nib.C20.
     changed); and the imported state equals the original on every persistent collection except the
     explicit list of [Spec.exc] — the two booleans say whether the defect exceptions
     [ExRewardsIdStale] / [ExTfBankMetadataReset] are needed for this [c]. *)
-Theorem C20_app_roundtrip : forall c F env h t s, wf_app F env s ->
+Theorem C20_app_roundtrip : forall c F env h t s, c_ep_val c = EpValNonneg -> wf_app F env s ->
   exists g s',
     export_app env s = Some g /\
     init_app c F env (tf_bankmd (a_tf s)) h t g = Some s' /\
@@ -22,7 +22,7 @@ Print Assumptions C20_app_roundtrip.
 (** export (init (export s)) = export s, for every module but epochs, where it holds modulo the
     start height (what InitGenesis/AddEpochInfo does: CurrentEpochStartHeight := h; the start TIME is
     kept because a stored epoch never has the zero time). *)
-Theorem C20_export_roundtrip : forall c F env h t s, wf_app F env s ->
+Theorem C20_export_roundtrip : forall c F env h t s, c_ep_val c = EpValNonneg -> wf_app F env s ->
   exists g s' g', export_app env s = Some g /\ init_app c F env (tf_bankmd (a_tf s)) h t g = Some s' /\
                   export_app env s' = Some g' /\ gen_equiv h g g'.
 Proof. exact export_roundtrip. Qed.
@@ -42,18 +42,53 @@ Print Assumptions C20_exceptions_of_ok_tree.
 
 (** The imported state is well-formed again, so the round trip can be iterated: importing the second
     export at any later height gives a third export equal to the first up to the epoch start heights. *)
-Theorem C20_imported_state_wf : forall F env h t s s',
+Theorem C20_imported_state_wf : forall F env h t s s', (0 <= h)%Z ->
   wf_app F env s -> state_equiv false false env h t s s' -> wf_app F env s'.
 Proof. exact wf_after_import. Qed.
 Print Assumptions C20_imported_state_wf.
 
-Theorem C20_roundtrip_twice : forall c F env h t h2 t2 s, cfg_ok c = true -> wf_app F env s ->
+Theorem C20_roundtrip_twice : forall c F env h t h2 t2 s, (0 <= h)%Z -> cfg_ok c = true -> wf_app F env s ->
   exists g s' s'' g'',
     export_app env s = Some g /\ init_app c F env (tf_bankmd (a_tf s)) h t g = Some s' /\
     init_app c F env (tf_bankmd (a_tf s')) h2 t2 (rebase_gen h g) = Some s'' /\
     export_app env s'' = Some g'' /\ gen_equiv h2 g g''.
 Proof. exact roundtrip_twice. Qed.
 Print Assumptions C20_roundtrip_twice.
+
+(** ITERATED round trips — "exporting at ANY height" includes heights of a chain that was itself started from an export
+    (second, third, … generation), each generation imported at its own InitChain height [h >= 0] (0 = a genesis
+    without initial height) and time: every generation's export is accepted (genesis validation is part of [init_*]),
+    every imported state is well-formed again, and the n-th export is the FIRST export with the epoch start heights
+    re-based to the last import height — no section is lost or changed along the way. *)
+Theorem C20_iterated_roundtrip : forall c F env h t gens s, cfg_ok c = true -> wf_app F env s ->
+  Forall (fun ht => (0 <= fst ht)%Z) ((h, t) :: gens) ->
+  exists g s', export_app env s = Some g /\ regen c F env ((h, t) :: gens) s = Some s' /\ wf_app F env s' /\
+               export_app env s' = Some (rebase_gen (fst (last gens (h, t))) g).
+Proof. exact regen_export. Qed.
+Print Assumptions C20_iterated_roundtrip.
+
+(** epochs: export ∘ init is idempotent on every state reachable by iterating it — the state imported at any height
+    [h >= 0], height 0 included, passes EpochInfo.Validate at the next import and comes back re-based *)
+Theorem C20_epochs_export_init_idempotent : forall empty h t h2 t2 s, (0 <= h)%Z -> wf_epochs empty s ->
+  exists s', init_epochs EpValNonneg empty h t (export_epochs s) = Some s' /\ wf_epochs empty s' /\
+             init_epochs EpValNonneg empty h2 t2 (export_epochs s') = Some (map (rb h2) s) /\
+             export_epochs (map (rb h2) s) = map (rebase_epoch h2) (export_epochs s).
+Proof. exact epochs_export_init_idempotent. Qed.
+Print Assumptions C20_epochs_export_init_idempotent.
+
+(** the validator "a counting epoch needs a POSITIVE start height" breaks it: the first generation imported at height
+    0 holds such epochs; its export is rejected, the module discards the error, the next chain has NO epochs *)
+Theorem C20_epochs_height_zero_invalid_refuted :
+  let r := EpValPositiveWhenStarted in
+  let w' := map (rb 0%Z) ep_witness in
+  wf_epochs 0 ep_witness /\
+  init_epochs r 0 0%Z 2000%Z (export_epochs ep_witness) = Some w' /\
+  export_epochs w' = map (rebase_epoch 0%Z) (export_epochs ep_witness) /\
+  init_epochs r 0 0%Z 3000%Z (export_epochs w') = None /\
+  init_epochs_mod r true 0 0%Z 3000%Z (export_epochs w') = Some [] /\
+  init_epochs EpValNonneg 0 0%Z 3000%Z (export_epochs w') = Some w'.
+Proof. exact epochs_height_zero_invalid_refuted. Qed.
+Print Assumptions C20_epochs_height_zero_invalid_refuted.
 
 (** Per module. *)
 Theorem C20_sudo_roundtrip : forall s g, export_sudo s = Some g -> export_sudo (init_sudo g) = Some g /\ init_sudo g = s.
@@ -65,8 +100,8 @@ Theorem C20_inflation_roundtrip : forall s,
 Proof. intro s. exact (conj (infl_roundtrip s) (infl_state_equiv s)). Qed.
 Print Assumptions C20_inflation_roundtrip.
 
-Theorem C20_epochs_roundtrip : forall h t s, wf_epochs s ->
-  exists s', init_epochs h t (export_epochs s) = Some s' /\
+Theorem C20_epochs_roundtrip : forall empty h t s, wf_epochs empty s ->
+  exists s', init_epochs EpValNonneg empty h t (export_epochs s) = Some s' /\
              export_epochs s' = map (rebase_epoch h) (export_epochs s) /\ epochs_equiv h s s'.
 Proof. exact epochs_roundtrip. Qed.
 Print Assumptions C20_epochs_roundtrip.
